@@ -26,12 +26,18 @@ type fcase struct {
 	Close   bool   `json:"close"`   // OptionCloseFile
 	Workers int    `json:"workers"` // formatting workers; 1 = arrival order is the push order
 	Jitter  int    `json:"jitter"`  // VERIF_JITTER max µs (0 = off), only with Workers > 1
-	Fault   string `json:"fault"`   // none | short | erronly | once | close
+	Fault   string `json:"fault"`   // none | short | erronly | once | close | (transient_test.go:) tshort | terronly | shortnil
 	K       int64  `json:"k"`       // byte offset of the fault in the stream
 	// Errno: "" = the injected error is a private error value; epipe | enospc |
 	// eio | edquot | efbig = it is an *fs.PathError wrapping that errno, what the
 	// operating system returns for a file
 	Errno string `json:"errno,omitempty"`
+	// transient kinds (transient_test.go): number of consecutive failing Write
+	// calls (0 = 1), bytes accepted by the second and later ones, bare
+	// syscall.Errno instead of a PathError around it
+	Repeat int  `json:"repeat,omitempty"`
+	Step   int  `json:"step,omitempty"`
+	Raw    bool `json:"raw,omitempty"`
 }
 
 func (c fcase) configKey() string {
@@ -39,6 +45,9 @@ func (c fcase) configKey() string {
 }
 
 func (c fcase) key() string {
+	if c.transient() {
+		return fmt.Sprint(c.configKey(), c.Fault, c.K, c.Errno, c.Repeat, c.Step, c.Raw)
+	}
 	if c.Errno != "" {
 		return fmt.Sprint(c.configKey(), c.Fault, c.K, c.Errno)
 	}
@@ -84,11 +93,15 @@ func (c fcase) validate() error {
 	}
 	switch c.Fault {
 	case "none", "short", "erronly", "once", "close":
+	case "tshort", "terronly", "shortnil":
+		if err := c.validateTransient(); err != nil {
+			return err
+		}
 	default:
 		return fmt.Errorf("unknown fault kind %q", c.Fault)
 	}
 	switch c.Errno {
-	case "", "epipe", "enospc", "eio", "edquot", "efbig":
+	case "", "epipe", "enospc", "eio", "edquot", "efbig", "eagain", "eintr":
 	default:
 		return fmt.Errorf("unknown errno %q", c.Errno)
 	}
@@ -112,6 +125,12 @@ func (c fcase) args(fault string, k int64, trace bool) []string {
 	}
 	if c.Errno != "" && fault != "none" {
 		a = append(a, "-errno", c.Errno)
+		if c.Raw {
+			a = append(a, "-rawerrno")
+		}
+	}
+	if c.transient() && fault != "none" {
+		a = append(a, "-repeat", strconv.Itoa(max(1, c.Repeat)), "-step", strconv.Itoa(c.Step))
 	}
 	return a
 }
@@ -135,6 +154,7 @@ type outcome struct {
 	Exit     int
 	TimedOut bool
 	Hits     int      // number of Write/Close calls of the stream that returned an error
+	ShortNil int      // number of Write calls cut short without an error (kind shortnil)
 	HitLines []string // their descriptions
 	Closes   int      // Close calls on the stream
 	Done     bool     // main returned normally
@@ -172,6 +192,9 @@ func runFault(c fcase, fault string, k int64, trace bool) outcome {
 		switch {
 		case strings.HasPrefix(l, "FAULTCMD hit "):
 			o.Hits++
+			o.HitLines = append(o.HitLines, l)
+		case strings.HasPrefix(l, "FAULTCMD shortnil "):
+			o.ShortNil++
 			o.HitLines = append(o.HitLines, l)
 		case strings.HasPrefix(l, "FAULTCMD close "):
 			o.Closes++
@@ -480,6 +503,9 @@ func classify(c fcase, r *reference) fclass {
 }
 
 func (c fcase) checkName(f fclass) string {
+	if c.transient() {
+		return "transient_" + c.Writer + "_" + c.zname()
+	}
 	return "fault_" + c.Writer + "_" + c.zname() + "_" + f.Phase
 }
 
@@ -507,6 +533,9 @@ func checkFault(c fcase) error {
 		return fmt.Errorf("harness infrastructure: %s", o.Infra)
 	}
 	what := fmt.Sprintf("faultcmd %s", strings.Join(c.args(c.Fault, c.K, false), " "))
+	if c.transient() {
+		return judgeTransient(c, r, o, what)
+	}
 	if o.Hits > 0 {
 		evid.Class("outcome:stream_failed", 1)
 		if o.Exit == 0 {
@@ -542,6 +571,9 @@ func evalFault(c fcase) (string, error) {
 		return "fault_" + c.Writer + "_" + c.zname() + "_notreached", r.Err
 	}
 	f := classify(c, r)
+	if c.transient() {
+		f = classifyTransient(c, r, f)
+	}
 	name := c.checkName(f)
 	evid.Eval(name, evid.Hash(c.key()), f.Nontrivial, c, append(f.Labels, "phase:"+f.Phase)...)
 	return name, checkFault(c)
